@@ -197,31 +197,35 @@ Definition normalise (g1st : list T) (eff : T) : list T :=
   let voa := lin2db (nmean (map db2lin g1st)) - eff in
   map (fun g => g - voa) g1st.
 
+(* average gain [dB] of a per-channel gain vector g on the input powers pin: watt2dbm(sum(pin*db2lin(g))) - pin_db *)
+Definition gavg_of (pin g : list T) (pin_db : T) : T :=
+  watt2dbm (nsum (map2 (fun p gd => p * db2lin gd) pin g)) - pin_db.
+(* base + dgt * x *)
+Definition tilt_by (base dgt : list T) (x : T) : list T := map2 (fun b d => b + d * x) base dgt.
+(* last step of _gain_profile: DGT scaling dgts3 from the measured average gains at xcent, xlow = xcent - deltax,
+   xhigh = xcent + deltax (one secant step towards the effective gain) *)
+Definition secant_step (eff xcent gc xlow gl xhigh gh : T) : T :=
+  let slope1 := (gl - gc) / (xlow - xcent) in
+  let slope2 := (gc - gh) / (xcent - xhigh) in
+  if nabs (eff - gc) <=? dec 1 (-11) then xcent
+  else if eff <? gc then xcent - (gc - eff) / slope1
+  else xcent + (- gc + eff) / slope2.
+
 Definition gain_profile (a : amp) (freqs pin dgt ripple : list T) (pin_db eff : T) : list T :=
   match dgt with
   | [_] => [eff]
   | _ =>
     let g1st := g1st_of a freqs dgt ripple in
     let base := normalise g1st eff in
-    let gavg (x : T) := watt2dbm (nsum (map2 (fun p gd => p * db2lin gd) pin (map2 (fun b d => b + d * x) base dgt))) - pin_db in
-    let pout2 := watt2dbm (nsum (map2 (fun p g => p * db2lin g) pin base)) in
-    let dgts2 := eff - (pout2 - pin_db) in
+    let gavg (x : T) := gavg_of pin (tilt_by base dgt x) pin_db in
+    let dgts2 := eff - gavg_of pin base pin_db in
     let xcent := dgts2 in
-    let gavg_cent := gavg xcent in
     let deltax := deltax_of g1st in
     if nabs deltax <=? dec 5 (-2) then base
     else
       let xlow := dgts2 - deltax in
       let xhigh := dgts2 + deltax in
-      let gavg_low := gavg xlow in
-      let gavg_high := gavg xhigh in
-      let slope1 := (gavg_low - gavg_cent) / (xlow - xcent) in
-      let slope2 := (gavg_cent - gavg_high) / (xcent - xhigh) in
-      let dgts3 :=
-        if nabs (eff - gavg_cent) <=? dec 1 (-11) then xcent
-        else if eff <? gavg_cent then xcent - (gavg_cent - eff) / slope1
-        else xcent + (- gavg_cent + eff) / slope2 in
-      map2 (fun b d => b + d * dgts3) base dgt
+      tilt_by base dgt (secant_step eff xcent (gavg xcent) xlow (gavg xlow) xhigh (gavg xhigh))
   end.
 
 Record edfa_obs := mkObs {
